@@ -261,9 +261,6 @@ func (m *Machine) intToFloat(x *sym.Lin) Value {
 	if within53(x) {
 		return m.exactF(x)
 	}
-	if x.Lo == nil || x.Hi == nil {
-		m.unsupported("int->float of unbounded term")
-	}
 	if len(x.Ts) > 0 && x.Ts[0].K.Sign() < 0 {
 		// float64(-y) == -float64(y): share the variable with the positive form
 		pos := m.intToFloat(m.ctx.Neg(x)).(*FSym)
